@@ -485,7 +485,7 @@ class Parser:
             )
         if isinstance(first_var, Name):
             self._error("Unexpected lonely name", self.current_token)
-        assert False, "unreachable line"
+        self._error("Unexpected lonely expression", self.current_token)
 
     def _parse_assignment(self, first_token: Token, first_var: Expression) -> Assign:
         """
@@ -751,7 +751,7 @@ class Parser:
             var = self._parse_exp()
             self._eat_token(TokenType.R_PAREN)
         else:
-            assert False
+            self._error("Expected a variable", self.current_token)
         var = self._parse_or_ignore_var_terminal(var)
         self._remove_hint()
         return var
@@ -878,7 +878,7 @@ class Parser:
             expressions.append(String.from_token(self.current_token))
             self._eat_token()
         else:
-            assert False, "unreachable line"
+            self._error("Expected function arguments", self.current_token)
         self._remove_hint()
         return expressions
 
